@@ -243,7 +243,7 @@ func oracle(o obs, r *ref, univ []int) string {
 // ---- generation ----
 
 func run(c *core.Ctx) {
-	c.ShardSize = 200
+	c.ShardSize = 230
 	u2 := []int{0, 1}
 	var alpha1 []Op
 	for _, k := range u2 {
